@@ -15,9 +15,6 @@ CHECKS = {
 }
 
 NOT_APPLICABLE = {
-    "C11": "semantic equality of a filter tree after two nested external decoders applied to text "
-           "assembled by write!/replace; no clause is a shape of the code, escaping constants pinned by "
-           "tests are themselves wrong (DESIGN.md §4/C11, §5 D7)",
 }
 
 
@@ -80,7 +77,7 @@ def main():
         ],
         "checks": checks,
         "not_applicable": na,
-        "notes": "Static analysis only (DESIGN.md). fix: commits in /repo: 355fdd1 bc9734d abb2d79 8d0de41 004abe0 78ca7dc (see known_findings.json). Known findings: D2 (C04), D6 (C06, five input classes).",
+        "notes": "Static analysis only (DESIGN.md). fix: commits in /repo: 355fdd1 bc9734d abb2d79 8d0de41 004abe0 78ca7dc (see known_findings.json). Known findings: D2 (C04), D6 (C06, five input classes), D7 (C11, two value classes).",
     }
     with open(os.path.join(VERIF, "MANIFEST.json"), "w") as fh:
         json.dump(man, fh, indent=1)
